@@ -456,7 +456,10 @@ fn kills(v: &Verdicts, thorough: bool) -> (u64, u64, BTreeSet<String>, Vec<serde
                 let intent = r.stdout.lines().find(|l| l.starts_with("INTENT ")).map(|l| l[7..].to_string()).unwrap_or("{}".into());
                 let killed_call = calls.last().unwrap().clone();
                 let exe = std::env::current_exe().unwrap();
-                let out = std::process::Command::new(exe).args(["c16-load", "x", &intent, &dir]).output().unwrap();
+                let mut cmd = std::process::Command::new(exe);
+                cmd.args(["c16-load", "x", &intent, &dir]);
+                cap_child_memory(&mut cmd);
+                let out = cmd.output().unwrap();
                 let stdout = String::from_utf8_lossy(&out.stdout).to_string();
                 let result = stdout.lines().find(|l| l.starts_with("RESULT ")).and_then(|l| serde_json::from_str::<serde_json::Value>(&l[7..]).ok());
                 {
